@@ -14,6 +14,7 @@ def dispatch (j : Json) : R Json := do
   | "pyfloat" => handlePyFloat j
   | "getitem" => handleGetitem j
   | "slice_indices" => handleSliceIndices j
+  | "pickle" => handlePickle j
   | "ping" => pure (Json.mkObj [("pong", Json.bool true)])
   | _ => throw s!"unknown op {op}"
 
